@@ -149,8 +149,10 @@ class _FilesystemDataSource(DataSource):
         if not os.path.exists(non_versioned_path):
             result = False
         else:
+            # The link must point at a stored object. (An empty or truncated link file, as
+            # left behind by a crash or a failed write, reads as "" or as a directory.)
             path = self._read_non_versioned_link(key)
-            result = path.exists()
+            result = path.is_file()
         log.debug("Exists {}? {}".format(key, result))
         return result
 
